@@ -5,9 +5,12 @@ storage.ExperimentPackage.expandPackageToDirectory, flowir.Manifest.__init__/val
 The archive, the file system and shutil are models (listed in the evidence): what is symbolic is the
 structure of member names / link targets / manifest keys as sequences of path segments.
 """
+import io
 import os
 import posixpath
+import shutil
 import tarfile
+import tempfile
 import types
 
 import experiment.model.data as data
@@ -17,7 +20,7 @@ from experiment.model.frontends.flowir import Manifest
 
 from symx.runner import explore_parallel, Report, replay_assignment
 
-SEGS = ['..', '.', 'a', 'b']
+SEGS = ['..', '.', 'a', 'c2']     # 'c2': a sibling whose name starts with the name of the working directory 'c'
 WD = '/wd/c'
 
 
@@ -98,37 +101,92 @@ class StubTar(object):
                 self.fs.write(path, m.kind)
 
 
+def snapshot(root):
+    """(path -> (kind, size, mtime_ns, link target)) for everything under root, not following symlinks."""
+    out = {}
+    for d, dirs, files in os.walk(root, followlinks=False):
+        for n in dirs + files:
+            p = os.path.join(d, n)
+            st = os.lstat(p)
+            out[p] = ('l' if os.path.islink(p) else ('d' if os.path.isdir(p) else 'f'), st.st_size if not os.path.isdir(p) else 0,
+                      st.st_mtime_ns if not os.path.isdir(p) else 0, os.readlink(p) if os.path.islink(p) else None)
+    return out
+
+
 def body_extract(n_members, max_segs):
+    """Real tarfile + real OS in a sandbox: <root>/wd/c is the working directory, <root>/wd/c2 a sibling, <root>/abs the
+    place 'absolute' member names and link targets point to (absolute names are spelled below the sandbox root)."""
     def body(ctx):
-        fs = FSModel()
-        members = []
-        for i in range(n_members):
-            kind = ctx.choice('m%d:type' % i, ['file', 'dir', 'symlink', 'hardlink'])
-            name = sym_path(ctx, 'm%d:name' % i, max_segs)
-            link = sym_path(ctx, 'm%d:link' % i, 2) if kind in ('symlink', 'hardlink') else ''
-            members.append(StubMember(name, kind, link))
-        loc = types.SimpleNamespace(path=ctx.choice('workdir_spelling', [WD, WD + '/']))
-        ref = types.SimpleNamespace(method='extract', resolve=lambda g: '/bin/sh', stringRepresentation='stage0.p/a.tar:extract')
-        tf = types.SimpleNamespace(open=lambda archive, *a, **k: StubTar(members, fs), ReadError=tarfile.ReadError)
-        saved = data.tarfile
-        data.tarfile = tf
+        root = tempfile.mkdtemp(prefix='verif-c18-', dir='/dev/shm' if os.path.isdir('/dev/shm') else None)
         try:
+            wd = os.path.join(root, 'wd', 'c')
+            os.makedirs(wd)
+            os.makedirs(os.path.join(root, 'wd', 'c2'))
+            os.makedirs(os.path.join(root, 'abs'))
+            with open(os.path.join(root, 'wd', 'victim.txt'), 'w') as f:
+                f.write('do not touch')
+            members = []
+            archive = os.path.join(root, 'a.tar')
+            with tarfile.open(archive, 'w') as tar:
+                for i in range(n_members):
+                    if n_members == 1:
+                        kind = ctx.choice('m%d:type' % i, ['file', 'dir', 'symlink', 'hardlink'])
+                        name = sym_path(ctx, 'm%d:name' % i, max_segs)
+                        link = sym_path(ctx, 'm%d:link' % i, 2) if kind in ('symlink', 'hardlink') else ''
+                    elif i == 0:
+                        # two-member archives: a link first ...
+                        kind = ctx.choice('m0:type', ['symlink', 'hardlink'])
+                        name = sym_path(ctx, 'm0:name', max_segs, allow_abs=False).rstrip('/')
+                        link = sym_path(ctx, 'm0:link', 2)
+                        first_name = name
+                    else:
+                        # ... then a regular member that is written through it (or next to it)
+                        kind = ctx.choice('m1:type', ['file', 'dir'])
+                        tail = sym_path(ctx, 'm1:tail', 2, allow_abs=False)
+                        name = (first_name + '/' + tail) if ctx.flag('m1:through_the_link') else tail
+                        link = ''
+                    if name.startswith('/'):
+                        name = os.path.join(root, 'abs') + name
+                    if link.startswith('/'):
+                        link = os.path.join(root, 'abs') + link
+                    info = tarfile.TarInfo(name)
+                    info.mtime = 1000
+                    if kind == 'file':
+                        info.size = 7
+                        tar.addfile(info, io.BytesIO(b'payload'))
+                    else:
+                        info.type = {'dir': tarfile.DIRTYPE, 'symlink': tarfile.SYMTYPE, 'hardlink': tarfile.LNKTYPE}[kind]
+                        info.linkname = link
+                        info.mode = 0o755
+                        tar.addfile(info)
+                    members.append((kind, name.replace(root, '<root>'), link.replace(root, '<root>')))
+            before = snapshot(root)
+            loc = types.SimpleNamespace(path=ctx.choice('workdir_spelling', [wd, wd + '/']))
+            ref = types.SimpleNamespace(method='extract', resolve=lambda g: archive, stringRepresentation='stage0.p/a.tar:extract')
             try:
                 data.StageReference(ref, loc, None)
                 rejected = False
             except errors.DataReferenceCouldNotStageError:
                 rejected = True
+            except (RecursionError, tarfile.TarError, KeyError):
+                # the archive is malformed for tarfile itself (e.g. a hard link to itself): nothing is claimed about
+                # the exception type then, only that nothing was written outside
+                rejected = True
+            after = snapshot(root)
+            changed = sorted(p for p in after if before.get(p) != after[p])
+            removed = sorted(p for p in before if p not in after)
+            outside = [p.replace(root, '<root>') for p in changed + removed
+                       if not (p == wd or p.startswith(wd + os.sep))]
+            detail = {'members': members, 'workdir': loc.path.replace(root, '<root>'), 'rejected': rejected,
+                      'changed': [p.replace(root, '<root>') for p in changed][:8]}
+            ctx.check(not outside, 'every extracted member lands inside the working directory', (outside, detail))
+            if rejected:
+                ctx.witness('offending_archive_rejected')
+            else:
+                ctx.witness('benign_archive_accepted')
+            return ('rejected' if rejected else 'extracted', tuple(sorted(p.replace(root, '') for p in changed)))
         finally:
-            data.tarfile = saved
-        detail = {'members': [(m.kind, m.name, m.linkname) for m in members], 'workdir': loc.path, 'writes': fs.writes}
-        if rejected:
-            ctx.witness('offending_archive_rejected')
-            ctx.check(fs.writes == [], 'a rejected archive is not extracted at all', detail)
-            return 'rejected'
-        bad = [w for w in fs.writes if not inside(w[0], WD)]
-        ctx.check(not bad, 'every extracted member lands inside the working directory', (bad, detail))
-        ctx.witness('benign_archive_accepted')
-        return 'extracted'
+            shutil.rmtree(root, ignore_errors=True)
     return body
 
 
@@ -221,8 +279,11 @@ def body_manifest(max_segs):
         manifest = {key: source}
         if ctx.flag('second_benign_entry'):
             manifest['bin'] = 'bin:copy'
+        # the manifest reaches the deployment either through Manifest(validate=True) (package loaded from a location)
+        # or directly (ExperimentPackage(conf, manifest) / manifest_update()), where deployment is the only guard
+        validated = ctx.flag('manifest_validated_before_deployment')
         try:
-            m = Manifest(dict(manifest), validate=True)
+            m = Manifest(dict(manifest), validate=validated)
             mdata = m.manifestData
             invalid = None
         except errors.FlowIRManifestException as e:
@@ -285,6 +346,8 @@ def signature(param, assignment, message, detail):
     if param['kind'] == 'extract':
         ms = info.get('members', [])
         dotdot = any('..' in (m[1] + '/' + m[2]).split('/') for m in ms)
+        if len(ms) > 1:
+            return 'extract|%s|members=%d' % (message, len(ms))
         link = any(m[0] in ('symlink', 'hardlink') for m in ms)
         return 'extract|%s|dotdot=%s|link=%s' % (message, dotdot, link)
     if param['kind'] == 'manifest':
@@ -299,18 +362,18 @@ def main(tier, seed, only=None):
                      'flowir.Manifest.__init__/validate/manifestData']
     quick = tier == 'quick'
     rep.bounds = {'archive': '%d member(s), names of <= %d segments from %s with optional leading/trailing slash, type file/dir/symlink/hardlink, '
-                             'link targets of <= 2 segments' % (1 if quick else 2, 3, SEGS),
+                             'link targets of <= 2 segments' % (1 if quick else 2, 2 if quick else 3, SEGS),
                   'manifest': 'one key of <= %d segments (+ optional benign second entry), method copy/link/none/junk' % (3 if quick else 4),
                   'copy/link': 'file path of <= 3 segments, file or directory source'}
-    rep.outside = ['real tarfile / OS behaviour (archive and file system are models)', 'character-level tricks inside one segment',
+    rep.outside = ['copy/link and manifest deployment use a model of shutil/os (the archive extraction uses the real tarfile and OS in a sandbox)', 'character-level tricks inside one segment',
                    'Job.stageIn loop (calls StageReference per reference)', 'copying source trees that contain symlinks']
-    rep.assumptions = ['tarfile.open stub: extractall writes every member at normpath(join(dest, name)), resolving through symlinks created by earlier members (fully-trusted filter, the 3.12 default)',
+    rep.assumptions = ['extraction: real tar archives and the real tarfile/OS in a scratch sandbox; absolute member names and link targets are spelled below <sandbox>/abs; every created, modified or removed entry outside the working directory counts',
                        'shutil.copytree/os.symlink fail with FileExistsError when the destination is the target directory or one of its ancestors',
                        'the solver only enumerates the structure choices: each path is one concrete archive/manifest']
     rep.explanation = ('bounded symbolic execution (symx/z3) over the segment structure of member names, link targets and manifest keys; the real '
                        'guard code runs natively on every path; writes recorded by a file-system model')
     rep.required_witnesses = ['offending_archive_rejected', 'benign_archive_accepted', 'copy_or_link_staged', 'manifest_deployed']
-    params = [{'kind': 'extract', 'members': 1, 'segs': 3, 'name': 'extract-1'},
+    params = [{'kind': 'extract', 'members': 1, 'segs': 2 if quick else 3, 'name': 'extract-1'},
               {'kind': 'copylink', 'name': 'copylink'},
               {'kind': 'manifest', 'segs': 3 if quick else 4, 'name': 'manifest'}]
     if not quick:
